@@ -8,7 +8,7 @@ LEVEL = "exploration"
 RULE = (
     "seeded random set-ups with Kx != Ky != Kz, oblique winds, non-square domains and grids, inside the conditioning guard; per case: "
     "mirror in x and in y (periodic reflection of the source / tower, that wind component negated; compared in Fourier space off the "
-    "Nyquist and cut-off wavenumbers, halo=0), transpose (source, winds, diffusivities, extents, mode counts, tower swapped; any halo), "
+    "Nyquist and cut-off wavenumbers, halo=0; and exactly, by plain flip, under every halo class on odd grids), transpose (source, winds, diffusivities, extents, mode counts, tower swapped; any halo), "
     "length scale s in [1e-3,1e3] on domain, heights, halo, tower and all K, velocity scale on winds and all K; footprint and dispersion "
     "mode.  non-trivial = wind oblique (both components non-zero) and Kx != Ky; distinct = distinct (idx, relation)"
 )
@@ -82,6 +82,36 @@ def run_case(case):
             record(f"mirror_{nm}", e, tol, field=fld, footprint=fp, levels=levels, setup=desc)
     if oblique:
         sigs.append(f"{case['idx']}|mirror")
+
+    # ------------------------------------------------------------------ mirrors under a halo
+    # odd grid sizes (the padded size stays odd, every mode is retained through an over-request): there is no Nyquist wavenumber,
+    # so flipping source / tower and negating that wind component must flip the returned (cropped) fields exactly
+    Sm = None
+    for _try in range(8):
+        Sm, _ = gen.draw_setup(rng, halo_classes=("none", "comm", "comm_x", "incomm", "sub"), mode_classes=("over",), even=False, nmax=17)
+        if Sm is not None and Sm["nx"] % 2 == 1 and Sm["ny"] % 2 == 1:
+            break
+    if Sm is not None and Sm["nx"] % 2 == 1 and Sm["ny"] % 2 == 1:
+        nxm, nym, dxm, dym = Sm["nx"], Sm["ny"], Sm["dx"], Sm["dy"]
+        um, vm, Kxm, Kym, Kzm = Sm["profiles"]
+        tolm = solve.tol(prec, Sm["G"], cr=Sm["cr"])
+        lvm, _k = solve.pick_levels(rng, len(Sm["z"]), str(rng.choice(["top", "scalar"])))
+        fpm = bool(rng.random() < 0.6)
+        qm0, _k = gen.make_source(rng, nym, nxm)
+        itm, jtm = int(rng.integers(nxm)), int(rng.integers(nym))
+        mpm0 = (itm * dxm, jtm * dym) if fpm else (0.0, 0.0)
+        _, cm0, fm0 = run(Sm, qm0, lvm, footprint=fpm, meas_pt=mpm0)
+        acm, afm = solve.amp_scales(Sm, qm0, footprint=fpm)
+        for axis, nm in ((1, "x"), (0, "y")):
+            S2 = dict(Sm)
+            S2["profiles"] = (-um, vm, Kxm, Kym, Kzm) if nm == "x" else (um, -vm, Kxm, Kym, Kzm)
+            mp2 = (((nxm - 1 - itm) * dxm, mpm0[1]) if nm == "x" else (mpm0[0], (nym - 1 - jtm) * dym)) if fpm else (0.0, 0.0)
+            _, c2, f2 = run(S2, np.flip(qm0, axis=axis).copy(), lvm, footprint=fpm, meas_pt=mp2)
+            for fld, a_, b__, fl_ in (("conc", c2, cm0, acm), ("flx", f2, fm0, afm)):
+                exp = np.flip(b__, axis=axis + 1)
+                e = float(np.max(np.abs(a_ - exp))) / max(float(np.max(np.abs(exp))), fl_, 1e-300)
+                record(f"mirror_{nm}_under_halo", e, tolm, field=fld, footprint=fpm, levels=lvm, setup=gen.describe(Sm), tower=(itm, jtm))
+        sigs.append(f"{case['idx']}|mirror_halo")
 
     # ------------------------------------------------------------------ transpose, scalings (any halo)
     Sh, _ = gen.draw_setup(rng, even=bool(rng.random() < 0.85))
